@@ -40,3 +40,16 @@ CALLS = [
     dict(module="xrspatial/zonal.py", function="_dask_var", props=("C03",), where="return", call="(sum_squares - squared_sum / n) / n", why="documented formula"),
     dict(module="xrspatial/zonal.py", function="_dask_std", props=("C03",), where="return", call="np.sqrt((sum_squares - squared_sum / n) / n)", why="documented formula"),
 ]
+
+# C17: every local operator enumerates the cells with np.nditer(..., order='C') (row-major for any memory layout) and folds the
+# flat result back with the raster's width
+for _f in ("cell_stats", "combine", "lesser_frequency", "equal_frequency", "greater_frequency", "lowest_position",
+           "highest_position", "popularity", "rank"):
+    CALLS.append(dict(module="xrspatial/local.py", function=_f, where="anywhere", props=("C17",),
+                      call="np.nditer([raster[var].data for var in data_vars], order='C')",
+                      why="assumed NumPy contract: nditer with order='C' visits cells in row-major order whatever the memory layout"))
+    CALLS.append(dict(module="xrspatial/local.py", function=_f, where="anywhere", props=("C17",),
+                      call="np.reshape(final_arr, (-1, raster[data_vars[0]].data.shape[1]))",
+                      why="flat cell k is folded back to (k // width, k % width)"))
+TABLES.append(dict(module="xrspatial/local.py", name="funcs", props=("C17",), entries={
+    "max": "np.max", "mean": "np.mean", "median": "np.median", "min": "np.min", "std": "np.std", "sum": "np.sum"}))
